@@ -49,7 +49,7 @@ func init() {
 
 func genCBloom(seed uint64, tier, variant string) any {
 	r := planRand(seed, 0xC36)
-	p := &ProbPlan{Scenario: "cbloom", Variant: variant, Clients: 1 + r.IntN(2), Multiplex: pick(r, 0, 0, 1)}
+	p := &ProbPlan{Scenario: "cbloom", Variant: variant, Clients: 1 + r.IntN(2)}
 	var heavy bool
 	p.N, p.FP, heavy = probConfig(r, true)
 	if variant == "impossible" && r.IntN(2) == 0 {
@@ -135,9 +135,7 @@ func genCBloom(seed uint64, tier, variant string) any {
 	for i, n := 0, r.IntN(3); i < n; i++ {
 		p.Ghosts = append(p.Ghosts, ProbGhost{MinStep: r.IntN(150), Argv: []string{"SCRIPT", "FLUSH"}})
 	}
-	if variant != "nofault" {
-		probFaults(r, p)
-	}
+	probFaults(r, p)
 	return p
 }
 
